@@ -220,14 +220,27 @@ def _aead(case):
     pt = prg("ap%d" % case["s"], case["n"])
     aad = prg("aa%d" % case["s"], case["alen"])
     obj = mk(key)
-    ct = obj.seal(bytearray(nonce), bytearray(pt), bytearray(aad))
+    # the caller's buffers are used again (the record layer keeps nonce and
+    # additional data around): the functions must leave them alone
+    bn, bp, ba = bytearray(nonce), bytearray(pt), bytearray(aad)
+    ct = obj.seal(bn, bp, ba)
     want = raead.seal(rname, key, nonce, pt, aad, tl)
     nt = case["n"] % 16 != 0 or case["alen"] % 16 != 0
     if bytes(ct) != want:
         return _res(case, False, nt, "seal differs from reference", "seal")
-    back = obj.open(bytearray(nonce), bytearray(ct), bytearray(aad))
+    if (bytes(bn), bytes(bp), bytes(ba)) != (nonce, pt, aad):
+        return _res(case, False, nt, "seal() modified its arguments",
+                    "seal-modifies-arguments")
+    bc = bytearray(ct)
+    back = obj.open(bn, bc, ba)
     if back is None or bytes(back) != pt:
         return _res(case, False, nt, "open(seal(x)) != x", "roundtrip")
+    if (bytes(bn), bytes(bc), bytes(ba)) != (nonce, bytes(ct), aad):
+        return _res(case, False, nt, "open() modified its arguments",
+                    "open-modifies-arguments")
+    if bytes(obj.seal(bn, bp, ba)) != want:
+        return _res(case, False, nt, "second seal() with the same buffers "
+                    "differs", "seal-not-repeatable")
     mut = case.get("mut")
     if mut:
         where, pos, bit = mut
